@@ -118,7 +118,7 @@ func runC16(c *Ctx) {
 	sh := c.newShard("f16", runnerF, "caseF", "mismatches", "violations")
 	sh.limit = 40
 	pool := bloomFilePool(c, 8)
-	nSeq := c.pick(520, 8000)
+	nSeq := c.pick(400, 8000)
 	for i := 0; i < nSeq; i++ {
 		c16Sequence(c, sh, filepath.Join(scratch, fmt.Sprintf("s%d", i)), i, fixed, pool)
 	}
@@ -223,7 +223,9 @@ func c16Sequence(c *Ctx, sh *shard, dir string, seq int, fixed bool, pool [][]by
 	observe := func(opTerm string, st *c16Step, res fsCallResult, okOverride *bool, ptr *string, read []byte, haveRead bool) {
 		listing := snapshotDir(dir)
 		bases, err := scanPointers(ctx, r.store)
-		must(err)
+		if err != nil && goViolation == "" {
+			goViolation = fmt.Sprintf("step %d: the directory scan misbehaved: %v", len(log), err)
+		}
 		content := map[string][]byte{}
 		for _, e := range listing {
 			if e.Ext == "Dat" {
